@@ -414,6 +414,12 @@ impl Terminal for UnixTerminal {
                 }
                 None => None,
             };
+            // never sleep while there is an event to deliver
+            let delay = if self.events_queue.is_empty() {
+                delay
+            } else {
+                Some(Duration::new(0, 0))
+            };
 
             let tty_write = PollEvent::new(&self.tty).with_writable(!self.write_queue.is_empty());
             self.poll.register(tty_write)?;
@@ -515,6 +521,12 @@ impl Terminal for UnixTerminal {
 
             // indicate that first loop was executed
             first_loop = false;
+
+            // an event is ready and the tty takes no more output right now, deliver the
+            // event instead of waiting for the other side to drain the output
+            if !self.events_queue.is_empty() && !tty.is_writable() {
+                break;
+            }
         }
 
         Ok(self.events_queue.pop_front())
